@@ -666,3 +666,56 @@ Proof.
   - apply veq_sym. exact (lcm_solve_is_the_specifications_solve m p dch' cch' P2 N1 N2 V N4 E2 L2 F t idx Ht Hb).
 Qed.
 Print Assumptions C01_lcm_solve_does_not_depend_on_the_order_of_the_choices.
+
+(* ---- WITH FILTERS: WHAT solve RETURNS IS THE SPECIFICATION'S solve_spec AT THE REMAINING STATES ---------------------------- *)
+From LCM Require Import Proofs.C01_SparseSpec.
+(* decl_index m p t s ds cs is the declaration-order index of the state stored at position (s, ds, cs): restricted labels of    *)
+(* the s-th remaining combination, free discrete labels ds, continuous indices cs.  By backward induction over the periods        *)
+(* (Proofs/C01_SparseSpec.v): the specification's value depends on the next value function only at the indices it reads --        *)
+(* in-bounds indices whose restricted part is that of a node of the transition (vread_veq_at_labels), which remains in the next    *)
+(* period's space -- and on the state only through its bindings.  Hypotheses: the model evaluates at every point of every          *)
+(* period's space with every node landing on a remaining state, and the specification's value function is finite at the            *)
+(* remaining states (at the dropped ones it is -inf: they have no admissible choice).                                             *)
+Theorem C01_lcm_solve_with_filters_is_the_specifications_solve :
+  forall (m : model) (p : params) (dch cch : list (string * grid)),
+  let rs := restricted_states m in let rc := restricted_choices m in
+  let dst := free_discrete_states m in let cst := free_continuous_states m in
+  Permutation (rc ++ dch ++ cch) (choices m) -> NoDup (map fst (choices m)) -> NoDup (map fst (rs ++ rc)) -> rs <> [] ->
+  (forall x, In x (map fst (dst ++ cst ++ dch ++ cch)) -> is_restricted m x = false) ->
+  NoDup (map fst (states m)) -> grids_valid (states m) ->
+  (forall sg, In sg (states m) -> is_restricted m (fst sg) = true -> is_cont (snd sg) = false) ->
+  NoDup (map fst (rc ++ dst ++ dch ++ cst ++ cch)) -> ~ In "__sparse__"%string (map fst (rc ++ dch ++ cch)) ->
+  (forall t, (S t < n_periods m)%nat -> forall si ci ds dc cs cidx,
+     in_bounds (sizes rs) si -> in_bounds (sizes rc) ci -> in_bounds (sizes dst) ds -> in_bounds (sizes dch) dc ->
+     in_bounds (sizes cst) cs -> in_bounds (sizes cch) cidx ->
+     evaluates_at_ix m p (fun _ => 0%Q) (is_restricted m) (rem_at m p (S t)) (sp_env t rs rc dst dch cst cch si ci ds dc cs cidx)) ->
+  (forall t, S t = n_periods m -> forall si ci ds dc cs cidx,
+     in_bounds (sizes rs) si -> in_bounds (sizes rc) ci -> in_bounds (sizes dst) ds -> in_bounds (sizes dch) dc ->
+     in_bounds (sizes cst) cs -> in_bounds (sizes cch) cidx ->
+     exists u, eval_fun (depth m) m p (sp_env t rs rc dst dch cst cch si ci ds dc cs cidx) "utility" = Some u) ->
+  (forall t idx, (t < n_periods m)%nat -> in_bounds (state_shape m) idx -> In (rpart (is_restricted m) (states m) idx) (rem_at m p t) ->
+     exists q, get VUndef (nth t (solve_spec m p) (scalar VUndef)) idx = VFin q) ->
+  forall t s ds cs, (t < n_periods m)%nat -> (s < length (rem_at m p t))%nat -> in_bounds (sizes dst) ds -> in_bounds (sizes cst) cs ->
+  veq (get VUndef (nth t (code_solve_sparse m p (n_periods m) dch cch) (scalar VUndef)) (s :: ds ++ cs))
+      (get VUndef (nth t (solve_spec m p) (scalar VUndef)) (decl_index m p t s ds cs)).
+Proof. exact lcm_solve_with_filters_is_the_specifications_solve. Qed.
+Print Assumptions C01_lcm_solve_with_filters_is_the_specifications_solve.
+
+(* non-vacuity of the three hypotheses for the filter model (the conclusion is computed in C01_solve_with_filters_nonvacuous) *)
+Example C01_solve_with_filters_hypotheses_nonvacuous :
+  let cch := [("c", GLin 0 2 5)] in
+  let rs := restricted_states sp_model in let rc := restricted_choices sp_model in
+  let dst := free_discrete_states sp_model in let cst := free_continuous_states sp_model in
+  forallb (fun t => forallb (fun si => forallb (fun ci => forallb (fun cs => forallb (fun cidx =>
+     if (S t =? 3)%nat
+     then is_some (eval_fun (depth sp_model) sp_model solve_params (sp_env t rs rc dst [] cst cch si ci [] [] cs cidx) "utility")
+     else evaluates_at_ixb sp_model solve_params (fun _ => 0%Q) (is_restricted sp_model)
+            (rem_at sp_model solve_params (S t)) (sp_env t rs rc dst [] cst cch si ci [] [] cs cidx))
+     (indices [5%nat])) (indices [3%nat])) (indices [2%nat])) (indices [2%nat])) [0; 1; 2]%nat = true /\
+  forallb (fun t => forallb (fun idx =>
+     negb (existsb (list_nat_eqb (rpart (is_restricted sp_model) (states sp_model) idx)) (rem_at sp_model solve_params t)) ||
+     match get VUndef (nth t (solve_spec sp_model solve_params) (scalar VUndef)) idx with VFin _ => true | _ => false end)
+     (indices (state_shape sp_model))) [0; 1; 2]%nat = true /\
+  map (fun t => map (fun sidx => decl_index sp_model solve_params t (fst sidx) [] [snd sidx]) [(0, 0); (0, 2); (1, 1)]%nat) [0; 2]%nat
+  = [[[0; 0]; [0; 2]; [1; 1]]; [[0; 0]; [0; 2]; [1; 1]]]%nat.
+Proof. cbv zeta. repeat split; vm_compute; reflexivity. Qed.
